@@ -13,6 +13,12 @@ SK_AA_Q = ['C', 'CO', 'CCC', 'C(C)C', 'C1CC1', 'CCl', 'C[O-]', '[NH3+]C', 'C=C',
 SK_AA_T = SK_AA_Q + ['C1CCC1C', 'CC(C)(C)C', 'OC(=O)c1ccccc1', 'C#CC', 'ccc', 'Cc1ccccc1', 'N1CC1=O', 'CS(=O)(=O)C']
 SK_CG_Q = ['[#A]', '[#A][#B]', '[#A]([#B])[#C]', '[#A]1[#B][#C]1', '[#A]=[#B]', '[#A]=1[#B][#C]1', '[#A]1[#B][#C]=1']
 SK_CG_T = SK_CG_Q + ['[#A][#B]([#C])[#D]', '[#A]1[#B]2[#C]1[#D]2', '[#A].[#B]']
+# complete strings whose last level consists of beads (resolved and written with last_all_atom=False); '@l' is a label hole
+FULL_CG = [
+    '{[#A][#B][#A]}.{#A=[>@l][#X]([#Y])[#Z][<@l],#B=[<@l][#K]=[#L][>@l]}',
+    '{[#A]=[#B]}.{#A=[$@l][#X][#Y][$@l],#B=[$@l][#K][$@l]}',
+    '{[#P][#Q]}.{#P=[#A][#B][$@l],#Q=[$@l][#A]}.{#A=[$][#X][#Y][$],#B=[$][#K][$]}',
+]
 ORD_SYMS = {'0': '.', '1': '-', '2': '=', '3': '#'}
 
 
@@ -92,6 +98,9 @@ class C08(core.Prop):
         mc = mc[:12] if q else [s for s in mc if len(gm.parse_smiles(s['smiles']).atoms) <= 6]
         for s in mc:
             out.append({'mode': 'full', 'case': s})
+        for i in range(len(FULL_CG)):
+            for ll in (0, 1):
+                out.append({'mode': 'full_cg', 'idx': i, 'll': ll})
         return out
 
     # ------------------------------------------------------------------
@@ -99,6 +108,10 @@ class C08(core.Prop):
         if shape['mode'] == 'full':
             r = pl.render_case(shape['case'])
             return {'text': r.text}
+        if shape['mode'] == 'full_cg':
+            lab = symx.SymStr.mk([sym_alnum('lab%d' % i) for i in range(shape['ll'])])
+            parts = FULL_CG[shape['idx']].split('@l')
+            return {'text': cat(*[x for i, p in enumerate(parts) for x in ((lab, p) if i else (p,))])}
         parts = []
         for fi, fr in enumerate(shape['frags']):
             toks = gm.tokenize(fr['skel'])
@@ -144,6 +157,15 @@ class C08(core.Prop):
         return {'text': cat('{', *parts, '}')}
 
     def execute(self, M, shape, inp):
+        if shape['mode'] == 'full_cg':
+            def run():
+                R = M.resolve.MoleculeResolver
+                r = R.from_string(inp['text'], last_all_atom=False)
+                written = M.write_cgsmiles.write_cgsmiles(r.molecule, r.fragment_dicts, last_all_atom=False)
+                m1 = R.from_string(inp['text'], last_all_atom=False).resolve_all()[1]
+                m2 = R.from_string(written, last_all_atom=False).resolve_all()[1]
+                return {'written': written, 'm1': pl.graph_data(m1), 'm2': pl.graph_data(m2)}
+            return core.guard(run)
         if shape['mode'] == 'full':
             def run():
                 R = M.resolve.MoleculeResolver
@@ -173,6 +195,13 @@ class C08(core.Prop):
             return [('write_and_reread_succeed', False)]
         o = obs[1]
         cl = [('write_and_reread_succeed', True)]
+        if shape['mode'] == 'full_cg':
+            g1, g2 = as_graph({'nodes': o['m1']['nodes'], 'edges': [e[:3] for e in o['m1']['edges']]}), \
+                as_graph({'nodes': o['m2']['nodes'], 'edges': [e[:3] for e in o['m2']['edges']]})
+            cl.append(('rewritten_string_resolves_to_same_molecule',
+                       gg.iso_clause(g1, g2, lambda x, y: x.get('atomname') == y.get('atomname'),
+                                     lambda x, y: gg.val_eq(x.get('order'), y.get('order')), concrete_label=lambda d: d.get('atomname'))))
+            return cl
         if shape['mode'] == 'full':
             g1, h1, _ = pl.observed_heavy_graph(o['m1'])
             g2, h2, _ = pl.observed_heavy_graph(o['m2'])
